@@ -1,6 +1,8 @@
 package engine
 
 import (
+	"bytes"
+
 	"github.com/youzan/ZanRedisDB/common"
 )
 
@@ -81,15 +83,38 @@ func (it *memIterator) SeekForPrev(key []byte) {
 }
 
 func (it *memIterator) SeekToFirst() {
+	if it.lowerBound != nil {
+		it.memit.Seek(it.lowerBound)
+		return
+	}
 	it.memit.First()
 }
 
 func (it *memIterator) SeekToLast() {
+	if it.upperBound != nil {
+		// upper bound is exclusive
+		it.memit.SeekForPrev(it.upperBound)
+		if it.memit.Valid() && bytes.Compare(it.memit.Key(), it.upperBound) >= 0 {
+			it.memit.Prev()
+		}
+		return
+	}
 	it.memit.Last()
 }
 
+// Valid honors the iterator bounds (lower bound inclusive, upper bound exclusive)
+// the same way the rocksdb and pebble iterators do.
 func (it *memIterator) Valid() bool {
-	return it.memit.Valid()
+	if !it.memit.Valid() {
+		return false
+	}
+	if it.lowerBound != nil && bytes.Compare(it.memit.Key(), it.lowerBound) < 0 {
+		return false
+	}
+	if it.upperBound != nil && bytes.Compare(it.memit.Key(), it.upperBound) >= 0 {
+		return false
+	}
+	return true
 }
 
 // the bytes returned will be freed after next
